@@ -775,6 +775,9 @@ class MarkdownNormalizer(Renderer):
             if url_end == len(text) and text.endswith(url):
                 # Directly after a bare URL the backslash would become part of the link.
                 return " \\\n"
+        else:
+            # A soft break separates words like a space does.
+            self._current_inline_text += " "
         return "\n" if element.soft else "\\\n"
 
     def render_code_span(self, element: inline.CodeSpan) -> str:
